@@ -1,5 +1,5 @@
-CONSTANT Family = "lower"
+CONSTANT Family = "mon"
 CONSTANT MaxArity = 7
 SPECIFICATION Spec
-INVARIANTS Covers Report
+INVARIANTS MonCovers Report
 CHECK_DEADLOCK FALSE
